@@ -438,7 +438,29 @@ func (g *pgen) stmt(c stmtCtx) {
 	case k < 84: // inner loop, always leaving after a bounded number of rounds in Go semantics
 		rc := g.pushCtx()
 		nvals := len(g.vals)
-		switch g.uni(3, "loopkind") {
+		switch g.uni(4, "loopkind") {
+		case 3: // counted loop of K+1 rounds (only == exists): for i := 0; done == 0; i++ { if i == K { done = 1 }; [if i == J { continue }]; ... }
+			i, d := g.newName("reg_i"), g.newName("reg_d")
+			k := rapid.IntRange(1, 3).Draw(g.t, "rounds")
+			g.emit("%s := 0", d)
+			g.emit("for %s := 0; %s == 0; %s++ {", i, d, i)
+			g.ind++
+			g.emit("if %s == %d {", i, k)
+			g.ind++
+			g.emit("%s = 1", d)
+			g.ind--
+			g.emit("}")
+			if g.pct(60, "skipround") {
+				g.emit("if %s == %d {", i, rapid.IntRange(0, k).Draw(g.t, "skipped"))
+				g.ind++
+				g.emit("continue")
+				g.ind--
+				g.emit("}")
+			}
+			g.ind--
+			g.inLoop++
+			g.block(rapid.IntRange(1, 2).Draw(g.t, "nbody"), stmtCtx{c.inFunc, c.depth + 1}, nil)
+			g.inLoop--
 		case 0: // for { ...; break }
 			g.emit("for {")
 			g.inLoop++
